@@ -372,7 +372,7 @@ def run(ctx):
 
 
 SURFACE_ITEMS = [
-    "int32", "'int32?'", "[int32, string]", "[null, int32, string]", "!union {ca: int32, cb: string}", "!union {cn: null, ca: int32, cb: string}",
+    "Rcf", "int32", "'int32?'", "[int32, string]", "[null, int32, string]", "!union {ca: int32, cb: string}", "!union {cn: null, ca: int32, cb: string}",
     "!vector {items: int32}", "!vector {items: !union {ca: int32, cb: string}}", "!vector {items: int32, length: 2}", "'string*'",
     "!array {items: float32}", "!array {items: !union {fa: int32, fb: float32}, dimensions: 2}", "'float32[]'", "'float32[2, 3]'",
     "!map {keys: string, values: !union {ca: int32, cb: string}}", "'string->int32'", "Rs", "Es", "'Gs<int32>'",
@@ -383,7 +383,7 @@ SURFACE_ITEMS = [
 def stream_surface_probe(ctx):
     """Whether a step is a stream is read from the MODEL SOURCE here (the `!stream` tag), for item types of every constructor and
     spelling, and compared with the API the three generators emit: an end-of-stream call exists exactly for the stream steps."""
-    defs = ("Rs: !record\n  fields:\n    a: int32\n\nEs: !enum\n  values: [p, q]\n\nGs<T>: !record\n  fields:\n    v: T\n\n"
+    defs = ("Rcf: !record\n  fields:\n    a: int32\n  computedFields:\n    c: a + 1\n\nRs: !record\n  fields:\n    a: int32\n\nEs: !enum\n  values: [p, q]\n\nGs<T>: !record\n  fields:\n    v: T\n\n"
             "As: !vector\n  items: !union {ca: int32, cb: string}\n\nAu: !union {ra: int32, rb: Rs}\n\n")
     lines, want = ["Pz: !protocol", "  sequence:"], {}
     for i, it in enumerate(SURFACE_ITEMS):
@@ -405,6 +405,13 @@ def stream_surface_probe(ctx):
                 "c++": re.search(r"\bvoid End%s\(\);" % cap(st), hdr) is not None,
                 "matlab-writer": re.search(r"function end_%s\(self\)" % st, mw) is not None,
                 "matlab-reader": re.search(r"function more = has_%s\(self\)" % st, mr) is not None}
+        present = {"python": re.search(r"def write_%s\(self" % st, py) is not None and re.search(r"def read_%s\(self" % st, py) is not None,
+                   "c++": re.search(r"\bvoid Write%s\(" % cap(st), hdr) is not None and re.search(r"\bRead%s\(" % cap(st), hdr) is not None,
+                   "matlab": re.search(r"function write_%s\(self" % st, mw) is not None and re.search(r"= read_%s\(self" % st, mr) is not None}
+        for lang, okp in present.items():
+            if not okp:
+                ctx.report("step-missing:%s" % lang, "step `%s` (item type `%s`) of the protocol has no write/read method in the generated %s API"
+                           % (st, item, lang), {"step": st, "item_type": item, "declared_stream": is_stream, "model": defs + "\n".join(lines) + "\n"})
         ctx.case(("surface", st, item), sample={"machine": "api-surface", "item_type": item, "declared_stream": is_stream, "generated": seen})
         for lang, got in seen.items():
             if got != is_stream:
